@@ -107,7 +107,10 @@ MaxRef(l, r) == IF l[1] > r[1] THEN l ELSE r
 IntLt(a, b) == a < b
 MinImpl(l, r)      == IF IntLt(r[1], l[1]) THEN r ELSE l
 MaxImpl(l, r)      == IF IntLt(r[1], l[1]) THEN l ELSE r
-Pairs == {<<k, id>> : k \in 0..1, id \in {"L", "R"}}
+\* keys 0..3 stand for four order-preserving anchor values of every primitive type
+\* (unsigned: 0, 1, 2^(bits-1), MAX; signed: MIN, -1, 0, MAX; char: NUL, 'a', U+D7FF, U+10FFFF)
+MMKeys == 0..3
+Pairs == {<<k, id>> : k \in MMKeys, id \in {"L", "R"}}
 MinMaxOK == \A l \in {p \in Pairs : p[2] = "L"}, r \in {p \in Pairs : p[2] = "R"} :
                 MinImpl(l, r) = MinRef(l, r) /\ MaxImpl(l, r) = MaxRef(l, r)
 
